@@ -759,6 +759,7 @@ func (e *Engine) simpleInstr(fr *Frame, st *State, instr ssa.Instruction) (*Val,
 		switch ft.Underlying().(type) {
 		case *types.Struct:
 			// nested struct: plain pointer to the sub-object
+			r.Sub = &SubObj{Base: x.T, Struct: ss, Field: in.Field}
 		case *types.Array:
 			return nil, fmt.Errorf("address of array-typed field (outside subset)")
 		default:
